@@ -403,9 +403,13 @@ func roundTrip(c *Case) (string, string) {
 	}
 	// policy that trusts the signer; short expiries are only logged so that timing cannot decide
 	target := map[string]string{"authenticity": "enforce", "authenticTimestamp": "enforce", "expiry": "enforce", "revocation": "enforce"}
-	if c.ExpirySecs != 0 && c.ExpirySecs < 600 {
+	if c.ExpirySecs != 0 && c.ExpirySecs < 30 {
 		target["expiry"] = "log"
 	}
+	// a signature that expires in 30 s or later verifies when it is verified right away: the
+	// harness's own clock decides whether "right away" held (a stalled machine is not a finding)
+	began := time.Now()
+	tooLate := func() bool { return c.ExpirySecs != 0 && time.Since(began) > time.Duration(c.ExpirySecs)*time.Second-5*time.Second }
 	sv := kit.LevelFor("strict", target, false).SV("")
 	ids := []string{"*"}
 	if c.Identity == "pinned" {
@@ -484,6 +488,9 @@ func roundTrip(c *Case) (string, string) {
 		}
 		rotate(v)
 		got, outs, err := notation.Verify(ctx, v, repo, notation.VerifyOptions{ArtifactReference: ref, MaxSignatureAttempts: 5, UserMetadata: c.Metadata})
+		if err != nil && tooLate() {
+			return "", ""
+		}
 		if err != nil {
 			return "C07:verify-failed:" + site, fmt.Sprintf("what the library signed does not verify: %v", err)
 		}
@@ -547,6 +554,9 @@ func roundTrip(c *Case) (string, string) {
 		}
 		got, out, err := notation.VerifyBlob(ctx, v, reader(c.VerReader, blob), env, notation.VerifyBlobOptions{
 			BlobVerifierVerifyOptions: notation.BlobVerifierVerifyOptions{SignatureMediaType: c.Format, UserMetadata: statedMeta}, ContentMediaType: statedType})
+		if err != nil && tooLate() {
+			return "", ""
+		}
 		if err != nil {
 			return "C07:verify-failed:" + site, fmt.Sprintf("what the library signed does not verify: %v", err)
 		}
@@ -615,7 +625,7 @@ func roundTrip(c *Case) (string, string) {
 	return "", ""
 }
 
-var metaKeys = []string{"env", "build.id", "owner", "io.example/key", "ключ", "k with space", "x"}
+var metaKeys = []string{"env", "build.id", "owner", "io.example/key", "ключ", "k with space", "x", " build id ", "x ", " x", "\towner", " "}
 var metaVals = []string{"prod", "", "42", "a=b,c", "значение", strings.Repeat("v", 300), "{\"json\":true}", "line\nbreak"}
 
 func drawCase(rt *rapid.T) *Case {
@@ -637,7 +647,7 @@ func drawCase(rt *rapid.T) *Case {
 		c.Transient = rp.Pick(rt, "transientCmd", "metadata", "describe", "generate", "generate") + ":" + rp.Pick(rt, "transientCode", "THROTTLED", "TIMEOUT")
 	}
 	c.TrustRotated = rapid.IntRange(0, 3).Draw(rt, "trustRotated") == 0
-	c.ExpirySecs = rp.Pick(rt, "expiry", int64(0), 0, 1, 30, 3600, 86400, 10*365*86400, int64(rapid.IntRange(600, 1000000).Draw(rt, "expiryRandom")))
+	c.ExpirySecs = rp.Pick(rt, "expiry", int64(0), 0, 1, 30, 30, 120, 299, 301, 3600, 86400, 10*365*86400, int64(rapid.IntRange(600, 1000000).Draw(rt, "expiryRandom")))
 	n := rapid.IntRange(0, 3).Draw(rt, "metadataCount")
 	if n > 0 || rapid.Bool().Draw(rt, "emptyNonNilMetadata") {
 		c.Metadata = map[string]string{}
